@@ -349,7 +349,7 @@ def portfolios(draw, classes=None, min_assets=1, max_assets=5, max_nodes=3, with
 
 # ====================================================================== wrappers and special variants
 def a_scaled(draw, cx, name, base_cls=None):
-    base_cls = base_cls or draw(st.sampled_from(["simple", "storage", "transport", "contract"]))
+    base_cls = base_cls or draw(st.sampled_from(["simple", "storage", "transport", "contract", "multi", "orderbook"]))
     base = draw_asset(draw, cx, base_cls, name + "_base")
     a = {"type": "scaled", "name": name, "base": base,
          "max_scale": draw(st.sampled_from([1.0, 2.0, 4.0])),
